@@ -687,32 +687,36 @@ def run(ctx):
         add(f"IOFromDict {cdict(d2)} {rdt_term(toks, lambda s: dt3.type(s) if dt3.kind == 'f' else float(s))} {exp}",
             dict(base, dict={k_: repr(v) for k_, v in d2.items()}), sig)
 
-        # clone: identical, then independent (tested only)
-        c = g.clone()
-        ctx.count(("clone", dt.name))
-        cl_fail = compare_meta(g, c, "Grid.clone") + compare_values(vals, c, "Grid.clone")
-        if c.name != g.name or c.comment != g.comment:
-            cl_fail.append(("attributes", "Grid.clone: name/comment differ"))
-        for mode, what in cl_fail:
-            fail(None, f"C13/clone/{mode}", what, dict(base, values=patterns(vals)))
-        before = (Meta.of(g).js(), g.data.tobytes())
-        c.data[0, 0] = dt.type(3) if c.data[0, 0] != dt.type(3) else dt.type(4)
-        c[g.nrows * g.ncols - 1] = dt.type(3)
-        c.nodata = 5
-        c.name, c.comment, c.cellsize, c.xllcorner = "other", "changed", 99.0, -5.0
-        c.fill(7)
-        if (Meta.of(g).js(), g.data.tobytes()) != before:
-            fail(None, "C13/clone/not-independent", "changing the clone changed the original grid",
-                 dict(base, values=patterns(vals)))
-        c2 = g.clone()
-        snap = (Meta.of(c2).js(), c2.data.tobytes())
-        g.fill(1)
-        g.nodata = 2
-        g.yllcorner = 17.0
-        g.data[-1, -1] = dt.type(9)
-        if (Meta.of(c2).js(), c2.data.tobytes()) != snap:
-            fail(None, "C13/clone/not-independent", "changing the original grid changed its clone",
-                 dict(base, values=patterns(vals)))
+        # clone: identical, then independent (tested only); without argument and with an
+        # explicit dtype equal to the grid's own (what Catchment.__init__ does)
+        for cl_name, mk in (("Grid.clone()", lambda: g.clone()),
+                            ("Grid.clone(own dtype)", lambda: g.clone(dt.type))):
+            cur = g.data.copy()
+            c = mk()
+            ctx.count(("clone", cl_name, dt.name))
+            cl_fail = compare_meta(g, c, cl_name) + compare_values(cur, c, cl_name)
+            if c.name != g.name or c.comment != g.comment:
+                cl_fail.append(("attributes", f"{cl_name}: name/comment differ"))
+            for mode, what in cl_fail:
+                fail(None, f"C13/clone/{mode}", what, dict(base, values=patterns(cur)))
+            before = (Meta.of(g).js(), g.data.tobytes())
+            c.data[0, 0] = dt.type(3) if c.data[0, 0] != dt.type(3) else dt.type(4)
+            c[g.nrows * g.ncols - 1] = dt.type(3)
+            c.nodata = 5
+            c.name, c.comment, c.cellsize, c.xllcorner = "other", "changed", 99.0, -5.0
+            c.fill(7)
+            if (Meta.of(g).js(), g.data.tobytes()) != before:
+                fail(None, "C13/clone/not-independent", f"{cl_name}: changing the clone changed the original grid",
+                     dict(base, values=patterns(cur), clone=cl_name))
+            c2 = mk()
+            snap = (Meta.of(c2).js(), c2.data.tobytes())
+            g.fill(1)
+            g.nodata = 2
+            g.yllcorner = 17.0
+            g.data[-1, -1] = dt.type(9)
+            if (Meta.of(c2).js(), c2.data.tobytes()) != snap:
+                fail(None, "C13/clone/not-independent", f"{cl_name}: changing the original grid changed its clone",
+                     dict(base, values=patterns(cur), clone=cl_name))
 
     # ------------------------------------------------------------------
     # E. clip
@@ -869,8 +873,12 @@ def run(ctx):
 
         def as_list(v):
             return None if v is None else [int(x) for x in np.atleast_1d(v)]
-        if int(cat2.idxcell_outlet) != outlet:
-            fail(j, "C13/catchment-dict/outlet", f"outlet {outlet} became {cat2.idxcell_outlet}")
+        try:
+            out2 = int(cat2.idxcell_outlet)
+        except Exception as e:      # the property getter raises when the outlet is undefined
+            out2 = f"undefined ({type(e).__name__})"
+        if out2 != outlet:
+            fail(j, "C13/catchment-dict/outlet", f"outlet {outlet} became {out2} after from_dict(to_dict())")
         if as_list(cat2.idxinlets) != as_list(cat.idxinlets):
             fail(j, "C13/catchment-dict/inlets-lost",
                  f"inlets {as_list(cat.idxinlets)} became {as_list(cat2.idxinlets)} after from_dict(to_dict())")
